@@ -16,7 +16,7 @@ CLAIMS = {
    note='not a proof: blocks of 2-4 bytes, 4-word scratch buffer (hook), gaps up to one block + 1 sample; gaps larger than the scratch buffer and the isfinite filter of the summaries are not covered; the contract units for jls_wr_fsr_data (U-fsr-gapdup-*) do not finish (attic); defects F2 F3 F30 F32 on this path fixed'),
  'C04': dict(cat='proof', ref='DESIGN.md §6 C04',
    text='every accept path of the raw layer (jls_raw_rd_header, jls_raw_rd_payload) is proved to return success only after the stored CRC was compared with the CRC recomputed over exactly the 28 header bytes / payload_length payload bytes; no header field is exposed on failure; with C18 the compared function is CRC-32C',
-   note='assumed: A-CRC-HD (CRC-32C detects <=3 flipped bits / one burst <=32 bits at these lengths: property of the polynomial), A-FS file model, header payload_length <= 0xfffffff0; reader layers above raw (caches in core.c) are covered only by their own units listed in the evidence'),
+   note='second session: reader-side lookup jls_core_rd_fsr_data0/level1 under a BOUNDED two-lookup unit (B-core-data0: success never leaves the remains of a failed read in the buffers; F33 found and fixed); assumed: A-CRC-HD (CRC-32C detects <=3 flipped bits / one burst <=32 bits at these lengths: property of the polynomial), A-FS file model, header payload_length <= 0xfffffff0; reader layers above raw (caches in core.c) are covered only by their own units listed in the evidence'),
  'C05': dict(cat='proof', ref='DESIGN.md §6 C05',
    text='per-write conformance: jls_raw_wr / wr_header / wr_payload proved to lay out header (little-endian image, CRC over 28 bytes, payload_prev_length of the physically preceding chunk), payload, zero padding to 8 bytes and little-endian payload CRC over exactly payload_length bytes, for every payload length and file position; chunk-list link rewrite proved (jls_core_update_item_head)',
    note='the walk of a whole file by an independent decoder is NOT one machine-checked theorem: per-write facts + heads-sync invariant, composition argued in DESIGN.md; A-FS file model (witness byte + witness header window)'),
@@ -43,16 +43,16 @@ CLAIMS = {
    note='magnitudes <= 2^500, counts < 2^52; "equal up to rounding" across groupings is a forward error bound and is NOT decided; jls_statistics_add (1000 s of FP SAT) runs in the thorough tier only'),
  'C02': dict(cat='proof', ref='DESIGN.md §6 C02, §9',
    text='exact part only: jls_dt_buffer_to_f64 proved to convert every sample (arbitrary witness index) of i4/u4 buffers of any length to the double value the format defines (loop contracts); the 8..64-bit and float conversions are generated by a macro and are checked by bounded unwinding (<= 6 samples, every bit pattern); min/max/count handling of the reductions is the subject of the C20 units',
-   note='numeric tolerances (mean precision, std ratio, averaged means) are not decided; summary level selection and strides (jls_core_fsr_statistics, fsr_seek) have no unit; u1 conversion runs in the thorough tier only; bounded units are labelled bounded in the evidence and not counted as proof'),
+   note='second session: level-1 summariser jls_core_fsr_summary1 under a BOUNDED unit (one block, 2 entries of 3 samples, arbitrary doubles incl. NaN/inf: min/max exact over the finite samples, all-gap entry is NaN, one index entry per block); block lookup jls_core_fsr_seek bounded (3 index levels); numeric tolerances (mean precision, std ratio, averaged means) are not decided; summary level selection and strides (jls_core_fsr_statistics, fsr_seek) have no unit; u1 conversion runs in the thorough tier only; bounded units are labelled bounded in the evidence and not counted as proof'),
  'C11': dict(cat='proof', ref='DESIGN.md §6 C11, §9',
    text='index mechanics of the annotation writer: for every decimation factor 2..65536 and every reachable fill state of the index levels, jls_wr_ts_anno / jls_wr_ts_close append entries in order, never exceed a level buffer, write a full level as INDEX immediately followed by its SUMMARY (same signal/track/level/timestamp), push its first entry one level up and re-establish the level invariant; recursion of commit() fully unwound (depth <= 16)',
-   note='quick tier: start states with levels 1..3 allocated (upper levels are created by the code under test), all 15 levels in the thorough tier; jls_core_annotations iteration checked on chains of up to 3 chunks with all callees modelled (seek is asked for exactly timestamp + offset); jls_core_ts_seek itself has no unit (F10 found and fixed through native reproduction); file composition assumed'),
+   note='second session: jls_core_ts_seek under a BOUNDED unit (3 index levels, chunks of 1..3 entries: the chosen entry neither skips an item >= t nor starts more than one item before t); quick tier: start states with levels 1..3 allocated (upper levels are created by the code under test), all 15 levels in the thorough tier; jls_core_annotations iteration checked on chains of up to 3 chunks with all callees modelled (seek is asked for exactly timestamp + offset); jls_core_ts_seek itself has no unit (F10 found and fixed through native reproduction); file composition assumed'),
  'C12': dict(cat='proof', ref='DESIGN.md §6 C12, §9',
    text='exact part: interp_i64 binary search proved in bounds for every map size up to 2^24 (loop contract: invariant, variant), selecting the segment that contains the argument or the nearest end segment; UTC index writer (jls_wr_ts_utc) as C11',
-   note='anchors reproduced exactly and monotonicity/one-tick accuracy of the double interpolation: anchors in the thorough tier (FP), accuracy not decided; A-TSRANGE: stored ids/timestamps < 2^61 (overflow checks of differences waived outside the witness pair); jls_tmap_add has no unit'),
+   note='second session: jls_core_ts_seek (UTC track) bounded as in C11; anchors reproduced exactly and monotonicity/one-tick accuracy of the double interpolation: anchors in the thorough tier (FP), accuracy not decided; A-TSRANGE: stored ids/timestamps < 2^61 (overflow checks of differences waived outside the witness pair); jls_tmap_add has no unit'),
  'C15': dict(cat='proof', ref='DESIGN.md §6 C15, §9',
    text='wr_data proved: a block is summarised exactly once with the same timestamp/count/contents whether or not its data is stored (only the recorded position differs), the first block of a signal is always stored, data of <= 8 bits is omitted only when is_mem_const holds (proved: true only if every byte equals the replicated first sample), wider data only on request, the signal advances by one full block either way, the omit request is a two-stage shift register',
-   note='jls_core_fsr_summary1 used through a recording contract (its numeric content is C02); reconstruction on read (reconstruct_omitted_chunk) has no unit; verification hook JLS_VERIF_FSR_BUFFER_WORDS=16'),
+   note='second session: reconstruct_omitted_chunk under BOUNDED units (full block, sample size, bit-exact constant for types of 8 bits or less; F36 found and fixed); known finding F31 (a partially filled final block may be omitted: length drops) reported by the variant unit U-fsr-wrdata-F31; jls_core_fsr_summary1 used through a recording contract (its numeric content is C02); reconstruction on read (reconstruct_omitted_chunk) has no unit; verification hook JLS_VERIF_FSR_BUFFER_WORDS=16'),
  'C19': dict(cat='proof', ref='DESIGN.md §6 C19, §9',
    text='the raw read primitives (jls_raw_rd_header, jls_raw_rd_payload) are proved never to call the backend write (vg_nwrites unchanged) for every file content and position; the control shape of jls_rd_open (no mutating call on a closed file; truncate after re-read, END written last, reopened read-only) is a thorough-tier unit',
    note='U-rd-open-shape did not finish within its time limit in this round (thorough tier); equality of results of first and second open is file composition and is not decided'),
